@@ -802,7 +802,10 @@ impl<'a, 'b> SGen<'a, 'b> {
 
     pub fn program(&mut self) -> Vec<Stmt> {
         let mut v = vec![];
-        if self.src.chance(1, 2) {
+        // with scope stress the include may come later (after user declarations that collide with
+        // standard gate names) or twice
+        let late_include = self.p.scope_stress && self.src.chance(1, 3);
+        if !late_include && self.src.chance(1, 2) {
             v.push(Stmt::Include("stdgates.inc".into()));
             self.stdgates = true;
         }
@@ -816,7 +819,12 @@ impl<'a, 'b> SGen<'a, 'b> {
             v.push(self.classical_decl());
         }
         let n = 1 + self.src.below(self.p.max_top);
-        for _ in 0..n {
+        let include_at = if late_include { Some(self.src.below(n)) } else { None };
+        for i in 0..n {
+            if include_at == Some(i) || (self.p.scope_stress && self.stdgates && self.src.chance(1, 25)) {
+                v.push(Stmt::Include("stdgates.inc".into()));
+                self.stdgates = true;
+            }
             let s = self.stmt(0);
             v.push(s);
         }
